@@ -143,6 +143,36 @@ def acc_inc(s, names):
             else:
                 continue
             out.append(pre + body + post)
+    # the members behind the accessors are the values on the instance's attribute list: every explicit attribute of the instance,
+    # own or inherited through any supertype, that nothing in the instance's ancestry redeclares
+    for e in s.entities:
+        if e["abstract"]:
+            continue
+        en = e["name"].lower()
+        C = cls[en]
+        closure = s.inherit_order(e["name"])
+        redeclared = {a["name"].lower() for m in closure for a in s.Ent(m)["attrs"] if a["redecl"]}
+        order = s.p21_order(e["name"])
+        all_names = [a["name"].lower() for m in closure for a in s.Ent(m)["attrs"]]
+        for o, x in order:
+            if all_names.count(x) != 1:        # one accessor name, two attributes (the name is used in two lines): C++ name hiding
+                continue
+            a = next((a for a in s.Ent(next(m for m in closure if m.lower() == o))["attrs"]
+                      if a["name"].lower() == x and a["kind"] == "E" and not a["redecl"]), None)
+            if a is None or x in redeclared or (o, x) not in accn:
+                continue
+            bk = s.base_kind(a["type"])
+            f = accn[(o, x)]
+            if bk == "INTEGER":
+                st, want = f"e->{f}( 7 );", "7"
+            elif bk == "STRING":
+                st, want = f'e->{f}( "ab" );', "ab"
+            elif bk == "BOOLEAN":
+                st, want = f"e->{f}( BTrue );", "T"
+            else:
+                continue
+            out.append(f'  {{ {C} * e = ( {C} * ) mk( "{en}" ); if( e ) {{ {st} std::string got = listed( e, "{o}", "{x}" ); '
+                       f'lstResult( "{en}", "{o}", "{x}", "{bk}", got == "{cq(want)}" || got == "\'{cq(want)}\'", got ); }} }}')
     out.append("}")
     return "\n".join(out) + "\n"
 
@@ -192,7 +222,7 @@ def canon_real0(lines):
         if l.startswith("INST "):
             orc.append(re.sub(r"/([EDRI])[dr]*", r"/\1", l))      # the property speaks about order only
             mdl.append(l); continue                                  # the model also predicts _derive / _redefAttr
-        if l.startswith("ACC "):
+        if l.startswith(("ACC ", "LST ")):
             acc.append(l); continue
         if l.startswith("SCHEMA "):
             mdl.append(l); continue
@@ -312,7 +342,7 @@ def run_one(b, model_exe, s, wd, text=None, script_seed=0, script_ops=None):
     R.idx = idx
     rr = subprocess.run([exe], env=b.env(), capture_output=True, text=True, timeout=120)
     R.real = [l for l in rr.stdout.split("\n") if l]
-    R.real_acc = [l for l in R.real if l.startswith("ACC ")]
+    R.real_acc = [l for l in R.real if l.startswith(("ACC ", "LST "))]
     if rr.returncode != 0 or not R.real or R.real[-1] != "END":
         R.status, R.detail = "run-fail", f"harness rc={rr.returncode}; last line {R.real[-1] if R.real else ''!r}; {rr.stderr[-300:]}"
     else:
@@ -497,6 +527,23 @@ def oracle_raw(R):
             cls = "duplicate" if len(set(got)) != len(got) else ("missing" if set(got) < set(want) else "order")
             probs.append((f"p21-order:{cls}", f"fresh instance of {n} exposes {got}, Part 21 order is {want}", ("entity", e["name"])))
     for l in acc:
+        if l.startswith("LST "):
+            w = l.split(" ")
+            if w[4] != "ok":
+                en, (o, x) = w[1], w[2].split(".", 1)
+                ent0 = next(e for e in s.entities if e["name"].lower() == en)
+                line, cur = [], ent0
+                while cur is not None:      # the principal line: the entity, its first supertype, that one's first supertype ...
+                    line.append(cur["name"].lower())
+                    cur = s.Ent(cur["supers"][0]) if cur["supers"] else None
+                if o not in line:
+                    probs.append(("accessor:non-principal-supertype-attribute-disconnected",
+                                  f"instance of {en}: the value stored through the generated mutator of {o}.{x} (inherited through a non-first "
+                                  f"supertype) is not the value on the instance's attribute list ({' '.join(w[5:])}): it is not written to a file", None))
+                else:
+                    probs.append(("accessor:member-not-on-instance", f"instance of {en}: the value stored through the generated mutator of "
+                                  f"{o}.{x} is not the value on the instance's attribute list: {l}", ("entity", ent0["name"])))
+            continue
         if not l.endswith(" ok") and " ok " not in l:
             if " ENTITY-NULL " in l:
                 probs.append(("accessor:entity-null-materialised", "after storing a NULL entity reference through the mutator the non-const "
